@@ -141,10 +141,11 @@ Fixpoint walk (get : sdr_server) (res : N) (rec : N) (fuel : nat) (acc : list (N
       end
   end.
 
-(* RetrieveSDRRepository, one round: info, reserve, walk, info; [None] when the round must be retried *)
-Definition retrieve_round (info : unit -> option (N * N)) (reserve : unit -> option N) (get : sdr_server) (fuel : nat)
+(* RetrieveSDRRepository, one round: info, reserve, walk, info; [None] when the round must be retried.
+   [info0], [info1]: the BMC's answers to the Get SDR Repository Info before and after the walk *)
+Definition retrieve_round (info0 info1 : option (N * N)) (reserve : unit -> option N) (get : sdr_server) (fuel : nat)
   : option (list (N * fsr)) :=
-  match info tt with
+  match info0 with
   | None => None
   | Some (add0, erase0) =>
       match reserve tt with
@@ -152,7 +153,7 @@ Definition retrieve_round (info : unit -> option (N * N)) (reserve : unit -> opt
       | Some rid =>
           match walk get rid 0 fuel [] with
           | WOk m =>
-              match info tt with
+              match info1 with
               | Some (add1, erase1) => if (add0 <? add1) || (erase0 <? erase1) then None else Some m
               | None => None
               end
